@@ -64,6 +64,7 @@ type Contract struct {
 	Modifies []Clause
 	NoPanic  bool
 	Panics   []PanicSpec
+	PanicsWith []Clause // predicate over `panicvalue` that every panic leaving the function satisfies
 	// PanicsOnly: function never returns normally under this condition
 	Loops         map[int]*LoopSpec
 	Hints         map[string][]Hint // anchor -> hints
@@ -128,7 +129,7 @@ var reLemma = regexp.MustCompile(`^lemma\s+([A-Za-z_][A-Za-z0-9_]*)\s*\((.*)\)\s
 var rePred = regexp.MustCompile(`^(?:pred|fun)\s+([A-Za-z_][A-Za-z0-9_]*)\s*\((.*?)\)\s*(?:[A-Za-z_.\[\]*]+\s*)?:=\s*(.*)$`)
 
 func clauseKeyword(s string) bool {
-	for _, k := range []string{"property ", "requires ", "ensures ", "modifies ", "no_panic", "panics ", "decreases ", "loop#", "at ", "let ", "ghost ", "trusted", "inline", "noinline", "pure", "witness ", "assumes ", "dispatch ", "callback ", "reads_init "} {
+	for _, k := range []string{"property ", "requires ", "ensures ", "modifies ", "no_panic", "panics_with ", "panics ", "decreases ", "loop#", "at ", "let ", "ghost ", "trusted", "inline", "noinline", "pure", "witness ", "assumes ", "dispatch ", "callback ", "reads_init "} {
 		if strings.HasPrefix(s, k) {
 			return true
 		}
@@ -328,6 +329,12 @@ func (cs *ContractSet) parseFile(pkgPath, file string) error {
 			}
 		case t == "no_panic":
 			cur.NoPanic = true
+		case strings.HasPrefix(t, "panics_with "):
+			c, err := mk(t[12:])
+			if err != nil {
+				return err
+			}
+			cur.PanicsWith = append(cur.PanicsWith, c)
 		case strings.HasPrefix(t, "panics "):
 			rest := strings.TrimSpace(t[7:])
 			if !strings.HasPrefix(rest, "when ") {
